@@ -46,3 +46,16 @@ A(M("c17e-r8-chained-comparison-silent", "C17", CF, "    if distance > sum_vdw_r
 A(M("c17e-r8-radius-table-hole", "C17", CF, "            \"P\": PHOSPHORUS_RADIUS,\n        }", "        }", "atom-types", **R8))
 A(M("c17e-r8-radius-table-get-silent", "C17", CF, "        if self.value not in radii:\n            raise RuntimeError(f\"Unknown atom type: {self}\")\n        return radii[self.value]", "        radius = radii.get(self.value)\n        if radius is None:\n            raise RuntimeError(f\"Unknown atom type: {self}\")\n        return radius", kind="silent", **R8))
 A(M("c17e-r8-radius-table-wrong-key", "C17", CF, "        return radii[self.value]", "        return radii[self.name.lower()]", "atom-types", **R8))
+
+# ---------------------------------------------------------------------------------------------------------------------
+# csv-metadata-total (F25): the CSV rows are exactly the clashes whatever metadata the file has (category absent -> [],
+# no category at all for a PDB-format file, rows without the items)
+MV = ("                                    metadata_value(metadata, \"exptl\", \"method\"),\n                                    metadata_value(metadata, \"refine\", \"ls_d_res_high\"),\n")
+A(M("c17e-csv-metadata-bare-subscripts", "C17", CF, MV, "                                    metadata[\"exptl\"][0][\"method\"],\n                                    metadata[\"refine\"][0][\"ls_d_res_high\"],\n", "csv-metadata-total"))
+A(M("c17e-csv-metadata-first-row-unchecked", "C17", CF, "    return rows[0].get(item, \"\") if rows else \"\"", "    return rows[0].get(item, \"\")", "csv-metadata-total"))
+A(M("c17e-csv-metadata-item-subscript", "C17", CF, "    return rows[0].get(item, \"\") if rows else \"\"", "    return rows[0][item] if rows else \"\"", "csv-metadata-total"))
+A(M("c17e-csv-metadata-category-subscript", "C17", CF, "    rows = metadata.get(category) or []", "    rows = metadata[category]", kind="silent"))  # read_metadata returns every category it was asked for
+A(M("c17e-csv-metadata-try-lookup-silent", "C17", CF, "    rows = metadata.get(category) or []\n    return rows[0].get(item, \"\") if rows else \"\"", "    try:\n        return metadata[category][0][item]\n    except LookupError:\n        return \"\"", kind="silent"))
+A(M("c17e-csv-metadata-try-keyerror-only", "C17", CF, "    rows = metadata.get(category) or []\n    return rows[0].get(item, \"\") if rows else \"\"", "    try:\n        return metadata[category][0][item]\n    except KeyError:\n        return \"\"", "csv-metadata-total"))
+A(M("c17e-csv-metadata-get-chain-silent", "C17", CF, "    rows = metadata.get(category) or []\n    return rows[0].get(item, \"\") if rows else \"\"", "    return (metadata.get(category) or [{}])[0].get(item, \"\")", kind="silent"))
+A(M("c17e-csv-metadata-skip-rows-without", "C17", CF, "                            writer.writerow(\n                                [\n                                    f\"{os.path.splitext", "                            if not metadata.get(\"refine\"):\n                                continue\n                            writer.writerow(\n                                [\n                                    f\"{os.path.splitext", "csv-metadata-total"))
